@@ -78,6 +78,19 @@ def run(repo: Repo, tier: str, res: CheckResult, seed: int = 0) -> None:
     from .. import genprog
     genprog.c13_checks(repo, tier, res, seed)
     genprog.c13_pipeline_checks(repo, tier, res, seed)
+    # the facade cache must not hide the recipe: get_converter(src, dst, recipe=...) answers from the retort the recipe was
+    # added to (shared rule with C11: lookup key == insert key, value produced and cached by the same retort)
+    from .c11 import facade_caches
+    fc = CheckResult("C11")
+    facade_caches(repo, fc)
+    res.evaluated("facade:converter-cache", True)
+    for f in fc.findings:
+        if "conversion/" in f.file:
+            res.add(Finding("C13", "FACADE.converter-cache-ignores-recipe", f.file, f.qualname, f.construct,
+                            "the converter cache is not owned by the retort that carries the per-call recipe: a later "
+                            "get_converter/convert for the same (src, dst, name) with another recipe receives the converter "
+                            "built for the first recipe, so its links/constants/coercers are silently ignored ("
+                            + f.message[:160] + ")", f.line))
     corroborated = bool(res.findings)
     for f in sub.findings:
         if corroborated or f.rule in S_ONLY_RULES:
